@@ -1,5 +1,6 @@
 import Driver.Util
 import Driver.C02
+import Driver.C10
 /-
   kdriver: one request per line on stdin, `model<TAB>spec` per line on stdout.
   Anything it cannot parse is answered `bad-op<TAB>bad-op` (never a default value).
@@ -13,6 +14,7 @@ def dispatch (line : String) : String :=
     | [] => none
     | op :: args =>
       if op.startsWith "s." then Driver.C02.handle (op.drop 2).toString args
+      else if op == "chain" then Driver.C10.handle args
       else none
   match r with
   | some (m, s) => m ++ "\t" ++ s
